@@ -118,7 +118,9 @@ CHECKS["C15"] = dict(
     text="Theorem: a vertex built from three planes lies on all three (exact). Tie: every 3D cell with face data: vertices on their planes and inside all half-spaces, each in "
          "exactly three faces; polygons simple, convex, counter-clockwise, area = area integral; V-E+F=2; accessors = face integrals; discard/re-derive identity; face vertex "
          "lists equal the extracted model's on the same duals; 1D/2D requests rejected on both conversion paths (debug build, so an unchecked None would trap).",
-    note="Partial: Euler's relation and the walk in sort_face_vertices are checked per cell, not proved; the type-state invariant relies on Rust privacy.", design="5 C15")
+    note="Proved in addition (C15_built_cells_are_well_formed): every cell the exact model builds, for every input, has vertices with three distinct in-range planes and "
+         "dual triangles forming a closed oriented surface (each directed edge matched by its reverse). Partial: Euler's relation itself and the walk in sort_face_vertices "
+         "are checked per cell, not proved; the type-state invariant relies on Rust privacy.", design="5 C15")
 CHECKS["C20"] = dict(
     technique="Coq proof of the ring-by-ring kNN search (bounded heap as sorted list, cell skipping, ring termination) and of both pruning bounds + extracted model and exact brute force run against the hooked code",
     text="Theorems: for every list of rings of cells whose bounds are admissible, every k: the search returns the k nearest candidates in increasing distance (= first k of the "
@@ -168,7 +170,9 @@ CHECKS["C18"] = dict(
          "init/try_extend/compute_boundary/clip, and a proper cycle has no stale entries. Tie: the hooked clip on cells reached by the builder (all families incl. > 64 planes), "
          "each clip repeated on random permutations + rotations and all orders of <= 6 removed vertices: no panic, same set of cyclic triples, equal volume, closed surface; the "
          "output array equals the extracted Coq clip_comb on the same array.",
-    note="Partial: that compute_boundary SUCCEEDS for every order of a connected removed set (the delayed-stack argument) is not proved; it is exercised exhaustively per case. "
+    note="Also proved: the fan of new triangles has the boundary cycle as its boundary (telescoping over the closed walk), so every clip maps a closed oriented surface "
+         "of dual triangles to a closed oriented surface, with three distinct in-range planes per new triangle. "
+         "Partial: that compute_boundary SUCCEEDS for every order of a connected removed set (the delayed-stack argument) is not proved; it is exercised exhaustively per case. "
          "Floating-point classification of vertices is input to the model (the removed set), not modelled.", design="5 C18")
 
 NOT_YET = {}
